@@ -269,3 +269,27 @@ Theorem C15_tpl_remap : forall d basis perm,
   /\ pc_total (tpl_remap RO true perm total' p) = total'.
 Proof. exact tpl_remap_ok. Qed.
 Print Assumptions C15_tpl_remap.
+
+(* ------------------------------------------------------------------------------------------------
+   Semantic tie of superoperator.liouville_representation (generic path, incl. basis.expand) and liouville_to_choi
+   (Proofs/KernelTieC15.v; docs/notes/kernel-tie.md): the terms translated on every run from the CURRENT Python bodies by
+   tools/kernel_extract.py are the model functions.
+   ------------------------------------------------------------------------------------------------ *)
+From FF Require Import Extracted.Kernels Proofs.KernelTieC15.
+
+Theorem C15_kernels_translated : kernel_untranslated_C15 = nil.
+Proof. exact kernels_translated_C15. Qed.
+
+(* einsum('...ba,ibc,...cd->...iad', U.conj(), basis, U) followed by basis.expand(.., hermitian=True) = Re tensordot(.., basis) *)
+Theorem C15_kernel_liouville_is_source : forall d (U : Mat (T:=R)) (basis : list (Mat (T:=R))) i j,
+  (i < length basis)%nat -> (j < length basis)%nat ->
+  nth j (nth i (liouville_generic RO d U basis) nil) 0 =
+  liouville_entry_src RO d (fun a b => mget RO U a b) (fun k a b => mget RO (nthm basis k) a b) i j.
+Proof. exact liouville_is_source. Qed.
+Print Assumptions C15_kernel_liouville_is_source.
+
+(* einsum('...ij,jba,icd->...acbd', S, basis, basis), entry [a][c][b][e] before the row-major reshape *)
+Theorem C15_kernel_choi_is_source : forall (S : list (list R)) (basis : list (Mat (T:=R))) a c b e,
+  choi_entry4 RO S basis a c b e =
+  choi_entry_src RO (length basis) (fun i j => rget RO S i j) (fun k x y => mget RO (nthm basis k) x y) a c b e.
+Proof. exact choi_is_source. Qed.
